@@ -5,6 +5,7 @@ package policy
 
 import (
 	"context"
+	"encoding/json"
 	"errors"
 	"fmt"
 	"reflect"
@@ -878,10 +879,55 @@ func valueInSlice(v any, list []any) bool {
 			if strutil.GlobbedStringsMatch(item, val) {
 				return true
 			}
-		} else if reflect.DeepEqual(el, v) {
+		} else if numbersEqual(el, v) || reflect.DeepEqual(el, v) {
 			return true
 		}
 	}
 
 	return false
+}
+
+// numbersEqual reports whether el and v are both numbers with the same value.
+// Numbers in a policy are decoded as int or float64, whereas numbers in the
+// JSON body of a request are decoded as json.Number, so they never compare
+// equal with reflect.DeepEqual.
+func numbersEqual(el, v any) bool {
+	a, ok := toJSONNumber(el)
+	if !ok {
+		return false
+	}
+	b, ok := toJSONNumber(v)
+	if !ok {
+		return false
+	}
+
+	if ai, err := a.Int64(); err == nil {
+		if bi, err := b.Int64(); err == nil {
+			return ai == bi
+		}
+	}
+
+	af, err := a.Float64()
+	if err != nil {
+		return false
+	}
+	bf, err := b.Float64()
+	if err != nil {
+		return false
+	}
+	return af == bf
+}
+
+func toJSONNumber(v any) (json.Number, bool) {
+	switch n := v.(type) {
+	case json.Number:
+		return n, true
+	case int:
+		return json.Number(strconv.Itoa(n)), true
+	case int64:
+		return json.Number(strconv.FormatInt(n, 10)), true
+	case float64:
+		return json.Number(strconv.FormatFloat(n, 'g', -1, 64)), true
+	}
+	return "", false
 }
